@@ -36,6 +36,39 @@ theorem substL_cons_shape (σ : Nat → Option Val) (es : List Expr) :
     (∃ a b, substL σ es = a :: b) ↔ (∃ a b, es = a :: b) := by
   cases es <;> simp [substL]
 
+def isDivElt : Expr → Bool
+  | .unary .div _ => true
+  | _ => false
+
+theorem isDivElt_subst (σ : Nat → Option Val) (e : Expr) : isDivElt (subst σ e) = isDivElt e := by
+  cases e with
+  | var i => simp only [subst]; cases σ i <;> rfl
+  | unary op e' => cases op <;> rfl
+  | _ => rfl
+
+theorem evalMulDiv_nondiv (A : Arith) (env : List Val) (acc : Val) (dv : Option Val) (e : Expr)
+    (rest : List Expr) (h : isDivElt e = false) :
+    evalMulDiv A env acc dv (e :: rest) =
+      match eval A env e with
+      | some v => match nbin A .mul acc v with
+        | some r => evalMulDiv A env r dv rest
+        | none => none
+      | none => none := by
+  cases e with
+  | unary op e' => cases op <;> first | rfl | simp [isDivElt] at h
+  | _ => rfl
+
+theorem evalMulDiv_div (A : Arith) (env : List Val) (acc : Val) (dv : Option Val) (e : Expr)
+    (rest : List Expr) :
+    evalMulDiv A env acc dv (.unary .div e :: rest) =
+      match eval A env e with
+      | some v => match dv with
+        | none => evalMulDiv A env acc (some v) rest
+        | some d => match nbin A .mul d v with
+          | some r => evalMulDiv A env acc (some r) rest
+          | none => none
+      | none => none := rfl
+
 variable {A : Arith} {σ : Nat → Option Val} {env : List Val}
 
 mutual
@@ -60,6 +93,14 @@ theorem subst_sound (h : Agrees σ env) : (e : Expr) → eval A env (subst σ e)
     case and => simp only [subst, eval, substAnd_sound h es]
     case or => simp only [subst, eval, substOr_sound h es]
     case cat => simp only [subst, eval, substCat_sound h es]
+    case mul =>
+      cases es with
+      | nil => simp [subst, substL, eval]
+      | cons e rest =>
+        simp only [subst, substL, eval, subst_sound h e]
+        cases eval A env e with
+        | none => rfl
+        | some v => simp only [substMulDiv_sound h rest v none]
     all_goals
       cases es with
       | nil => simp [subst, substL, eval]
@@ -97,6 +138,38 @@ theorem substCat_sound (h : Agrees σ env) : (es : List Expr) →
   | [] => by simp [substL]
   | e :: rest => by
     simp only [substL, evalCat, subst_sound h e, substCat_sound h rest]
+
+theorem substMulDiv_sound (h : Agrees σ env) : (es : List Expr) → (acc : Val) → (dv : Option Val) →
+    evalMulDiv A env acc dv (substL σ es) = evalMulDiv A env acc dv es
+  | [], acc, dv => by simp [substL]
+  | e :: rest, acc, dv => by
+    simp only [substL]
+    by_cases hd : isDivElt e = true
+    · cases e with
+      | unary op e' =>
+        cases op <;> simp [isDivElt] at hd
+        simp only [subst, evalMulDiv_div, subst_sound h e']
+        cases eval A env e' with
+        | none => rfl
+        | some v =>
+          cases dv with
+          | none => exact substMulDiv_sound h rest acc (some v)
+          | some d =>
+            dsimp only
+            cases nbin A .mul d v with
+            | none => rfl
+            | some r => exact substMulDiv_sound h rest acc (some r)
+      | _ => simp [isDivElt] at hd
+    · have hd' : isDivElt e = false := by simpa using hd
+      rw [evalMulDiv_nondiv A env acc dv _ _ (by rw [isDivElt_subst]; exact hd'),
+        evalMulDiv_nondiv A env acc dv _ _ hd', subst_sound h e]
+      cases eval A env e with
+      | none => rfl
+      | some v =>
+        dsimp only
+        cases nbin A .mul acc v with
+        | none => rfl
+        | some r => exact substMulDiv_sound h rest r dv
 
 theorem substFold_sound (h : Agrees σ env) (op : NOp) : (es : List Expr) → (acc : Val) →
     evalFold A env op acc (substL σ es) = evalFold A env op acc es
